@@ -11,7 +11,7 @@ EXPLANATION = ('Static rules on the two-input operators: M0 both inputs are wire
                'slot empty); M2 merge/combine_latest/zip complete downstream only on the second completion (first completion only sets the '
                'flag); M3 take_until completes the main slot on the notifier\'s first item and ignores the notifier\'s own terminal, '
                'skip_until opens the gate on a notifier item only; M4 sample and buffer move the gathered data out before emitting it '
-               '(no duplication on the next tick); M6 the source side of sample never emits (values are released by notifier events only); M5 zip\'s pending queues are first-in-first-out (necessary for pairing the i-th items); M7 latest-value flow, by provenance dataflow: combine_latest stores the incoming item first and combines it with the other side\'s stored value; with_latest_from pairs the incoming item with the stored secondary value and its secondary observer only stores; sample stores on the source side and releases+empties on a tick; merge forwards the incoming item unchanged; M8 when the closing notifier of buffer() or the sampler of sample() completes, what was gathered since the last tick is released before the completion (skipped only when nothing is gathered). Does not decide pairing, latest-value selection or per-interleaving outputs.')
+               '(no duplication on the next tick); M6 the source side of sample never emits (values are released by notifier events only); M5 zip\'s pending queues are first-in-first-out (necessary for pairing the i-th items); M7 latest-value flow, by provenance dataflow: combine_latest stores the incoming item first and combines it with the other side\'s stored value; with_latest_from pairs the incoming item with the stored secondary value and its secondary observer only stores; sample stores on the source side and releases+empties on a tick; merge forwards the incoming item unchanged; M9 the shared downstream slot of merge/zip/combine_latest stays occupied while an item is delivered (items go through a borrowed slot, same rule as C01.P3): a notification of the other input that arrives meanwhile waits for the lock instead of finding the slot empty and being lost; M8 when the closing notifier of buffer() or the sampler of sample() completes, what was gathered since the last tick is released before the completion (skipped only when nothing is gathered). Does not decide pairing, latest-value selection or per-interleaving outputs.')
 TECHNIQUE = 'static analysis: rule automata and path-sensitive provenance dataflow over MIR event graphs (custom rustc_private driver)'
 ASSUMPTIONS = ['the interleaving of the two inputs is arbitrary; only per-event handlers are analysed']
 
@@ -32,7 +32,7 @@ CONTROLS = [
 
 
 def check(cx):
-    return m0(cx) + m1(cx) + m2(cx) + m3(cx) + m4(cx) + m5(cx) + m6(cx) + m7(cx) + m8(cx)
+    return m0(cx) + m1(cx) + m2(cx) + m3(cx) + m4(cx) + m5(cx) + m6(cx) + m7(cx) + m8(cx) + m9(cx)
 
 
 def m0(cx):
@@ -421,3 +421,17 @@ def m8(cx):
         if t not in seen:
             res.append(Finding(ID, 'M8', 'table:' + t, False, 'observer not found (fail closed)'))
     return res
+
+
+def m9(cx):
+    """items are delivered through the borrowed slot, never on an observer taken out of it (same rule as C01.P3)"""
+    if cx.control:
+        return []
+    from . import c01
+    out = []
+    for f in c01.p3(cx):
+        if any(t in f.key for t in ('merge::MergeObserver', 'zip::ZipObserver', 'combine_latest::CombineLatestObserver', 'Option<')):
+            out.append(Finding(ID, 'M9', f.key, f.ok, f.msg, f.loc, f.witness))
+    if len(out) < 6:
+        out.append(Finding(ID, 'M9', 'floor', False, 'expected the shared observers of merge/zip/combine_latest, found %d' % len(out)))
+    return out
